@@ -49,7 +49,7 @@ Definition gspec_mismatches (cs : list gcase) : list N := idx_where gcase_spec_o
 (* ---- part B: a defer program and the observed (trace, final) -------------- *)
 (* run-time error kinds are observed through their message: kinds 3/4 (nil pointer, nil func) and
    8/9 (negative / oversized make) print the same text *)
-Definition rt_class (k : N) : N := match k with 4%N => 3%N | 9%N => 8%N | _ => k end.
+Definition rt_class (k : N) : N := match k with 4%N => 3%N | 9%N => 8%N | 14%N => 13%N | 15%N => 7%N | _ => k end.
 Definition pval_eqb (a b : pval) : bool :=
   match a, b with
   | PInt x, PInt y => x =? y
